@@ -22,7 +22,7 @@ LINE_COMMENTS = ["eol_c", "own_c", "blank_own_c", "nosp_c", "two_c", "uni_c", "s
 HOSTILE_EXTRA = ["sp2", "tab", "blank2", "crlf", "inl_blk", "own_blk", "ml_blk", "doc",
                  "trail_ws", "tight", "inl_blk_tight", "eol_blk", "lead_blk",
                  "crlf_blank", "eol_c_crlf", "eol_c_crlf_blank", "blk_edge", "ctl_blk",
-                 "two_blk", "blk_eol_c", "own_blk_eol_c"]
+                 "two_blk", "blk_eol_c", "own_blk_eol_c", "three_blk", "two_blk_eol_c"]
 
 # characters that str.splitlines() treats as line boundaries and the Nix grammar does not
 PY_ONLY_LINE_BOUNDARIES = ["\x0b", "\x0c", "\x1c", "\x1d", "\x1e", "\x85", "\u2028", "\u2029"]
@@ -38,7 +38,7 @@ MODES = {
 
 COMMENT_CLASSES = set(LINE_COMMENTS) | {"inl_blk", "own_blk", "ml_blk", "doc", "inl_blk_tight",
                                         "eol_blk", "lead_blk", "eol_c_crlf", "eol_c_crlf_blank",
-                                        "blk_edge", "ctl_blk", "two_blk", "blk_eol_c", "own_blk_eol_c"}
+                                        "blk_edge", "ctl_blk", "two_blk", "blk_eol_c", "own_blk_eol_c", "three_blk", "two_blk_eol_c"}
 
 _SERIAL_RE = re.compile(r"c(\d+)x")
 
@@ -128,6 +128,12 @@ def gap_text(cls: str, rng: random.Random, serial: Serial, gi: int, prev: str, n
         # two comments sharing one line in one gap
         c2 = serial.new(gi)
         return rng.choice([f" /* {c} */ /* {c2} */ ", f"/*{c}*//*{c2}*/", f"\n{ind}/* {c} */ /* {c2} */\n{ind}"])
+    if cls == "three_blk":
+        c2, c3 = serial.new(gi), serial.new(gi)
+        return f" /* {c} */ /* {c2} */ /* {c3} */ "
+    if cls == "two_blk_eol_c":
+        c2, c3 = serial.new(gi), serial.new(gi)
+        return f" /* {c} */ /* {c2} */ # {c3}\n{ind}"
     if cls == "blk_eol_c":
         c2 = serial.new(gi)
         return f" /* {c} */ # {c2}\n" + ind
